@@ -207,6 +207,10 @@ func (h *harness) world(ctx context.Context) (*World, error) {
 		h.mu.Unlock()
 		h.jitter(100)
 	})
+	// a resolver notices that the request's context is gone (the connection is being shut down)
+	if err := ctx.Err(); err != nil {
+		return &Table[rs.version], err
+	}
 	return &Table[rs.version], nil
 }
 
@@ -450,6 +454,19 @@ func runScenario(seed int64, scn int, maxSubs int) ([]Event, bool) {
 		script = append([]scriptMsg{{"subscribe", id, "qf"}, {"unsubscribe", id, ""}, {"subscribe", id, "qa"}}, script[:r.Intn(3)]...)
 	}
 	var wg sync.WaitGroup
+	if r.Intn(5) == 0 {
+		// the server cancels the connection's context at some moment while the socket stays open
+		wg.Add(1)
+		d := time.Duration(r.Intn(2500)) * time.Microsecond
+		go func() {
+			defer wg.Done()
+			time.Sleep(d)
+			h.mu.Lock()
+			h.add(Raw{Ev: "ctx.cancel"})
+			h.mu.Unlock()
+			cancel()
+		}()
+	}
 	nch := r.Intn(4)
 	wg.Add(1)
 	go func() {
@@ -604,8 +621,21 @@ func fold(raw []Raw, scn int) []Event {
 			}
 			delete(lastWrite, r.gid)
 			emit(e)
+		case "ctx.cancel":
+			emit(Event{Ev: "ctx.cancel"})
 		case "sub.failed":
 			e := Event{Ev: "sub.fail", Id: r.Id, Kind: r.Kind}
+			if r.Kind == "ctx" {
+				e.Ev = "sub.cancelled"
+				// is somebody stopping this subscription right now (Stop cancels the rerunner's context
+				// and then waits for the run)? then the cancellation is the Stop's, not the connection's
+				e.Found = closing
+				for _, pc := range pendingClose {
+					if pc.Id == r.Id {
+						e.Found = true
+					}
+				}
+			}
 			if w := lastWrite[r.gid]; w != nil && w.Id == r.Id && w.Typ == "error" {
 				e.Wrote, e.Msg = true, w.Msg
 			}
